@@ -51,13 +51,15 @@ def case(ctx):
     import shapepy
 
     rng = ctx.rng
-    mode = rng.choice(["connected", "connected", "unbounded-connected", "disjoint", "disjoint", "special"])
+    mode = rng.choice(["connected", "connected", "unbounded-connected", "disjoint", "disjoint", "nested-rings", "special"])
     curved = rng.random() < 0.15
     num = None if curved else rng.choice(["int", "frac", "float"])
     if mode == "special":
         return special_case(ctx)
     if mode == "connected":
         spec, _ = G.random_connected(rng, num, curved, (rng.randint(-9, 9), rng.randint(-9, 9)), 10.0, nholes=rng.randint(1, 3))
+    elif mode == "nested-rings":
+        spec, _ = G.random_nested_rings(rng, num, curved, (0, 0), 10.0)
     elif mode == "unbounded-connected":
         spec, _ = G.random_connected(rng, num, curved, (0, 0), 10.0, nholes=rng.randint(2, 3), unbounded=True)
     else:
